@@ -2128,9 +2128,7 @@ func TestC10(t *testing.T) {
 		c10RunTrace(t, r, lines, nil, 0)
 	}
 	for _, d := range c10CoordDirected() {
-		for _, b := range d.hits {
-			r.Hit("directed/" + b)
-		}
+		r.Hit("directed/coord-trace/" + d.name) // the branches themselves are hit from the outcomes (c10CoordH.branch)
 		c10RunTrace(t, r, d.lines, nil, 0)
 	}
 	nTraces, nOps := r.N(220, 4000), r.N(45, 60)
